@@ -114,6 +114,18 @@ def record(rng, ngraph, nillegal):
             m[u, w] = 1
         r = impl.call(dsw.adjacency_matrix_to_accessor, m)
         cases.append({"kind": "illegal", "k": k, "ones": [[int(u), int(w)] for u, w in zip(*numpy.nonzero(m))], "outcome": _outcome(r)})
+    # argument validation (conformance tier)
+    acc1 = dsw.get_complete_accessor(1)
+    lm1 = dsw.accessor_to_latter_map(acc1)
+    for ha, hl in ((True, True), (False, False), (True, False), (False, True)):
+        r = impl.call(dsw.obtain_leaf_vertices, 0, 1, accessor=acc1 if ha else None, latter_map=lm1 if hl else None)
+        cases.append({"kind": "args", "fn": "leaf", "has_acc": ha, "has_lm": hl, "outcome": _outcome(r)})
+    probes = [(dsw.get_complete_accessor(2), 8), (dsw.get_complete_accessor(2), 2), (dsw.get_complete_accessor(3), 3),
+              (dsw.get_complete_accessor(2)[:, :3], 8), (dsw.get_complete_accessor(2) - 2, 8), (dsw.get_complete_accessor(2) + 1, 8)]
+    for a, ml in probes:
+        r = impl.call(dsw.accessor_to_adjacency_matrix, a, maximum_length=ml)
+        cases.append({"kind": "args", "fn": "matrix", "nrows": int(a.shape[0]), "ncols": int(a.shape[1]), "min": int(a.min()), "max": int(a.max()),
+                      "maxlen": ml, "outcome": _outcome(r)})
     return cases
 
 
@@ -142,6 +154,10 @@ def run(ctx):
     if len(got) != len(cases):
         raise Machinery("trace validation returned %d verdicts for %d cases" % (len(got), len(cases)))
     for i, c in enumerate(cases, 1):
+        if c["kind"] == "args":
+            if got[i] != "ok":
+                ctx.divergence(got[i], {k: v for k, v in c.items() if k != "kind"})
+            continue
         ctx.judged()
         ctx.mark("B" + json.dumps(c.get("live", c.get("ones"))))
         if got[i] != "ok":
